@@ -90,8 +90,10 @@ impl Fold {
                 self.post.retain(|k, _| k.0 != d.peer_addr);
                 // the snapshot buffers are cleared too: a peer-down during the snapshot
                 // phase removes what was buffered for that peer
-                self.snap_pre.retain(|c| c.source.remote_addr != d.peer_addr);
-                self.snap_post.retain(|c| c.source.remote_addr != d.peer_addr);
+                self.snap_pre
+                    .retain(|c| c.source.remote_addr != d.peer_addr);
+                self.snap_post
+                    .retain(|c| c.source.remote_addr != d.peer_addr);
             }
             BgpEvent::EndOfSnapshot => {
                 self.sentinel_seen = true;
@@ -119,7 +121,12 @@ impl Fold {
     }
     fn fold(map: &mut BTreeMap<Key, Val>, c: crate::table_manager::AdjRibInChange) {
         for n in &c.nlris {
-            let k = (c.source.remote_addr, fam_id(c.family), format!("{}", n.nlri), n.path_id);
+            let k = (
+                c.source.remote_addr,
+                fam_id(c.family),
+                format!("{}", n.nlri),
+                n.path_id,
+            );
             match &c.attrs {
                 Some(a) => {
                     map.insert(k, (render_attrs(a), render_nh(&c.nexthop)));
@@ -140,13 +147,23 @@ fn ground_truth(t: &TableManager) -> (BTreeMap<Key, Val>, BTreeMap<Key, Val>) {
         for f in s.rtable.families().collect::<Vec<_>>() {
             for r in s.rtable.iter_reach(f) {
                 pre.insert(
-                    (r.source.remote_addr, fam_id(f), format!("{}", r.net.nlri), r.net.path_id),
+                    (
+                        r.source.remote_addr,
+                        fam_id(f),
+                        format!("{}", r.net.nlri),
+                        r.net.path_id,
+                    ),
                     (render_attrs(&r.attr), render_nh(&r.nexthop)),
                 );
             }
             for r in s.rtable.iter_reach_post(f) {
                 post.insert(
-                    (r.source.remote_addr, fam_id(f), format!("{}", r.net.nlri), r.net.path_id),
+                    (
+                        r.source.remote_addr,
+                        fam_id(f),
+                        format!("{}", r.net.nlri),
+                        r.net.path_id,
+                    ),
                     (render_attrs(&r.attr), render_nh(&r.nexthop)),
                 );
             }
@@ -160,12 +177,18 @@ fn prefixes() -> Vec<(Family, packet::Nlri)> {
     for i in 0..5u8 {
         v.push((
             Family::IPV4,
-            packet::Nlri::V4(bgp::Ipv4Net { addr: Ipv4Addr::new(10, i, 0, 0), mask: 16 }),
+            packet::Nlri::V4(bgp::Ipv4Net {
+                addr: Ipv4Addr::new(10, i, 0, 0),
+                mask: 16,
+            }),
         ));
     }
     v.push((
         Family::IPV6,
-        packet::Nlri::V6(bgp::Ipv6Net { addr: "2001:db8:1::".parse().unwrap(), mask: 48 }),
+        packet::Nlri::V6(bgp::Ipv6Net {
+            addr: "2001:db8:1::".parse().unwrap(),
+            mask: 48,
+        }),
     ));
     v
 }
@@ -187,11 +210,18 @@ fn policies() -> Vec<Option<Arc<table::PolicyAssignment>>> {
             local_pref: Some(table::LocalPrefAction { value: 200 }),
             ..Default::default()
         };
-        pt.add_statement("lp", vec![], Some(table::Disposition::Accept), actions).unwrap();
+        pt.add_statement("lp", vec![], Some(table::Disposition::Accept), actions)
+            .unwrap();
         pt.add_policy("pa", vec!["lp".into()]).unwrap();
         out.push(Some(
-            pt.build_assignment(None, "a", table::PolicyDirection::Import, table::Disposition::Accept, vec!["pa".into()])
-                .unwrap(),
+            pt.build_assignment(
+                None,
+                "a",
+                table::PolicyDirection::Import,
+                table::Disposition::Accept,
+                vec!["pa".into()],
+            )
+            .unwrap(),
         ));
     }
     // B: reject two of the prefixes
@@ -200,22 +230,39 @@ fn policies() -> Vec<Option<Arc<table::PolicyAssignment>>> {
         pt.add_defined_set(table::DefinedSetConfig::Prefix {
             name: "ps".into(),
             prefixes: vec![
-                table::PrefixConfig { ip_prefix: "10.0.0.0/16".into(), mask_length_min: 16, mask_length_max: 16 },
-                table::PrefixConfig { ip_prefix: "10.3.0.0/16".into(), mask_length_min: 16, mask_length_max: 16 },
+                table::PrefixConfig {
+                    ip_prefix: "10.0.0.0/16".into(),
+                    mask_length_min: 16,
+                    mask_length_max: 16,
+                },
+                table::PrefixConfig {
+                    ip_prefix: "10.3.0.0/16".into(),
+                    mask_length_min: 16,
+                    mask_length_max: 16,
+                },
             ],
         })
         .unwrap();
         pt.add_statement(
             "rej",
-            vec![table::ConditionConfig::PrefixSet("ps".into(), table::MatchOption::Any)],
+            vec![table::ConditionConfig::PrefixSet(
+                "ps".into(),
+                table::MatchOption::Any,
+            )],
             Some(table::Disposition::Reject),
             table::Actions::default(),
         )
         .unwrap();
         pt.add_policy("pb", vec!["rej".into()]).unwrap();
         out.push(Some(
-            pt.build_assignment(None, "b", table::PolicyDirection::Import, table::Disposition::Accept, vec!["pb".into()])
-                .unwrap(),
+            pt.build_assignment(
+                None,
+                "b",
+                table::PolicyDirection::Import,
+                table::Disposition::Accept,
+                vec!["pb".into()],
+            )
+            .unwrap(),
         ));
     }
     out
@@ -288,7 +335,12 @@ fn run_history(seed: u64, cfg: &HistoryCfg, rep: &mut Report) {
                 if k < 55 {
                     let t = tag.fetch_add(1, Ordering::Relaxed) as u32;
                     let nh = if fam == Family::IPV4 {
-                        Some(bgp::Nexthop::V4(Ipv4Addr::new(192, 0, 2, 100 + rng.below(2) as u8)))
+                        Some(bgp::Nexthop::V4(Ipv4Addr::new(
+                            192,
+                            0,
+                            2,
+                            100 + rng.below(2) as u8,
+                        )))
                     } else {
                         Some(bgp::Nexthop::V6("2001:db8::1".parse().unwrap()))
                     };
@@ -304,7 +356,13 @@ fn run_history(seed: u64, cfg: &HistoryCfg, rep: &mut Report) {
                     );
                 } else if k < 85 {
                     ops.push(format!("w{} remove {} pid{}", w, nlri, pid));
-                    tables.remove_route(src.clone(), fam, packet::PathNlri { path_id: pid, nlri }, None, 0);
+                    tables.remove_route(
+                        src.clone(),
+                        fam,
+                        packet::PathNlri { path_id: pid, nlri },
+                        None,
+                        0,
+                    );
                 } else {
                     // session drop exactly as session_loop does it, then a new session
                     ops.push(format!("w{} drop+reup", w));
@@ -401,7 +459,10 @@ fn run_history(seed: u64, cfg: &HistoryCfg, rep: &mut Report) {
                 fold.apply(ev);
             }
             tables.unsubscribe(sub.id);
-            SubResult { fold, resubscribed: resub }
+            SubResult {
+                fold,
+                resubscribed: resub,
+            }
         }));
     }
 
@@ -447,7 +508,10 @@ fn run_history(seed: u64, cfg: &HistoryCfg, rep: &mut Report) {
             rep.violation(
                 "C18/sentinel/missing",
                 "subscribe(true) never delivered EndOfSnapshot",
-                Json::obj(vec![("seed", Json::Int(seed as i128)), ("ops", Json::strs(all_ops.clone()))]),
+                Json::obj(vec![
+                    ("seed", Json::Int(seed as i128)),
+                    ("ops", Json::strs(all_ops.clone())),
+                ]),
             );
             continue;
         }
@@ -543,13 +607,24 @@ pub(crate) fn run_entry() {
     let mut rep = Report::new("C18", &params);
     let mut rng = Rng::new(params.seed ^ 0xC18);
     let miri = cfg!(miri);
-    let n = if miri { params.get_u64("histories", 2) } else { params.n(400, 6000) };
+    let n = if miri {
+        params.get_u64("histories", 2)
+    } else {
+        params.n(400, 6000)
+    };
     for _ in 0..n {
         if !rep.in_budget() {
             break;
         }
         let cfg = if miri {
-            HistoryCfg { shards: 2, writers: 2, subscribers: 1, ops_per_writer: 6, intensity: 60, soft_reset: true }
+            HistoryCfg {
+                shards: 2,
+                writers: 2,
+                subscribers: 1,
+                ops_per_writer: 6,
+                intensity: 60,
+                soft_reset: true,
+            }
         } else {
             HistoryCfg {
                 shards: *rng.pick(&[1usize, 2, 4]),
